@@ -135,6 +135,8 @@ def make_alg(cfg: dict):
         kw['codegen_symbolcls'] = sympy.Symbol
     if cfg.get('pretty_blade'):
         kw['pretty_blade'] = cfg['pretty_blade']
+    if cfg.get('simp_func') == 'none':
+        kw['simp_func'] = None
     if cfg.get('name'):
         alg = Algebra.fromname(cfg['name'], **kw)
     elif cfg.get('signature') is not None:
